@@ -8,7 +8,7 @@ use crate::model::{F, MV};
 use proptest::prelude::*;
 use serde::{Deserialize, Serialize};
 
-pub const RULE: &str = "(list of length 0..10, callee) pairs: the callee is drawn from a table of lambdas of arity 1, 2, optional-index and rest shape, closures, self-recursive (fact, fib) and mutually recursive late-bound (is_even / is_odd) named functions, predicates that fail on some element, non-boolean predicates, anonymous lambdas, and built-ins of every arity class (exactly one, one-or-two, at-least-one, exactly two); both equivalent forms are evaluated in one environment and must give the same value or both fail; reduce is compared with a left fold the harness assembles from single applications; recording callbacks expose the (element, index) protocol. Non-trivial = non-empty list and a callee that is named-recursive, of arity != 1, or a built-in; distinct by (list, callee).";
+pub const RULE: &str = "(list of length 0..10, and of length 60..200, callee) pairs: the callee is drawn from a table of lambdas of arity 1, 2, optional-index and rest shape, closures, self-recursive (fact, fib) and mutually recursive late-bound (is_even / is_odd) named functions, predicates that fail on some element, non-boolean predicates, anonymous lambdas, and built-ins of every arity class (exactly one, one-or-two, at-least-one, exactly two); both equivalent forms are evaluated in one environment and must give the same value or both fail; reduce is compared with a left fold the harness assembles from single applications; recording callbacks expose the (element, index) protocol; the same recursion written with `n - 1 into f` and with `f(n - 1)` is compared at depths 0..990. Non-trivial = non-empty list and a callee that is named-recursive, of arity != 1, or a built-in; distinct by (list, callee).";
 pub const ASSUMPTIONS: &[&str] = &[
     "failure is compared by status (both forms fail / both succeed with equal values), not by message",
     "every/some are compared with the conjunction / disjunction only when the predicate succeeds with a boolean on every element",
@@ -23,6 +23,8 @@ k = 10
 clos = x => x + k
 fact = n => if n <= 1 then 1 else n * fact(n - 1)
 fib = n => if n < 2 then n else fib(n - 1) + fib(n - 2)
+downi = n => if n <= 0 then 0 else (n - 1 into downi) + 1
+downc = n => if n <= 0 then 0 else downc(n - 1) + 1
 is_even = n => if n == 0 then true else is_odd(n - 1)
 is_odd = n => if n == 0 then false else is_even(n - 1)
 pos = x => x > 0
@@ -189,6 +191,30 @@ impl Check for Forms {
     }
     fn run(&self, c: &Case, ctx: &mut Ctx) -> Outcome {
         let callee = c.callee.as_str();
+        if callee == "@deep" {
+            // the same recursion written with `x into f` and with `f(x)`, d levels deep
+            let sess = match session() {
+                Ok(s) => s,
+                Err(e) => fail!("harness:prelude", "{}", e),
+            };
+            sess.bind("d", &c.x);
+            ctx.label("deep-into-vs-call");
+            ctx.nontrivial(hash_str(&format!("deep{:?}", c.x)));
+            let a = sess.probe("downi(d)");
+            let b = sess.probe("downc(d)");
+            let e = sess.probe("d into downc");
+            if !same(&a, &b) || !same(&e, &b) {
+                fail!(
+                    format!("deep-into-apply:{}/{}/{}", status(&a), status(&b), status(&e)),
+                    "with d = {:?}: downi(d) [step written `n - 1 into downi`] = {:?}, downc(d) [step written `downc(n - 1)`] = {:?}, `d into downc` = {:?}",
+                    c.x,
+                    a,
+                    b,
+                    e
+                );
+            }
+            return Ok(());
+        }
         let (min, max, class_s) = callee_meta(callee);
         let class = class_s.as_str();
         let kind = if c.acc { Kind::Acc } else { Kind::Unary };
@@ -346,7 +372,25 @@ pub fn run(ctx: &mut Ctx) {
             cases.push(Case { l: l.clone(), callee: callee.clone(), acc, x: MV::List(vec![num(2.0), num(3.0)]), init: MV::List(vec![]) });
         }
     }
+    // lists longer than any plausible internal block size, for every callee
+    for (callee, acc) in all_callees() {
+        for n in [64usize, 65, 70, 129, 200] {
+            let l: Vec<MV> = (0..n).map(|i| num(((i * 5 + 3) % 7) as f64)).collect();
+            cases.push(Case { l, callee: callee.clone(), acc, x: num(4.0), init: num(0.0) });
+        }
+    }
+    // recursion written with into and with a call, up to just below the call-depth limit
+    for d in [0u32, 1, 10, 100, 400, 499, 500, 501, 700, 900, 990] {
+        cases.push(Case { l: vec![], callee: "@deep".into(), acc: false, x: num(d as f64), init: MV::Null });
+    }
     ctx.run_enum(&Forms, cases.into_iter(), false);
     ctx.run_random(&Forms, strategy(), ctx.tier.pick(15_000, 400_000));
+    // long random lists
+    let long = (prop::collection::vec((0i32..7).prop_map(|k| num(k as f64)), 60..140), any::<u16>()).prop_map(|(l, ci)| {
+        let all = all_callees();
+        let (callee, acc) = all[pick_idx(ci, all.len())].clone();
+        Case { l, callee, acc, x: num(3.0), init: num(0.0) }
+    });
+    ctx.run_random(&Forms, long, ctx.tier.pick(1_500, 40_000));
     let _ = F(0.0);
 }
